@@ -437,6 +437,27 @@ func TestC18(t *testing.T) {
 			compareFS(c, st, st.LinkSystem(false), linkCid(l), filepath.Join(dir, n))
 			c.Sig("root|"+n, true)
 		}
+		// regular files whose stat size says nothing about their content (kernel pseudo-files report 0)
+		for _, pf := range []string{"/proc/sys/kernel/ostype", "/proc/version", "/proc/filesystems"} {
+			fi, err := os.Lstat(pf)
+			if err != nil || !fi.Mode().IsRegular() {
+				continue
+			}
+			want, err := os.ReadFile(pf)
+			if err != nil || len(want) == 0 {
+				continue
+			}
+			pst := store.New()
+			l, _, err := builder.BuildUnixFSRecursive(pf, pst.LinkSystem(false))
+			if err != nil {
+				c.Violation("C18|import-error", "import root %q: %v", pf, err)
+				continue
+			}
+			c.Count("trees", 1)
+			c.Count("pseudo_file_roots", 1)
+			compareFS(c, pst, pst.LinkSystem(false), linkCid(l), pf)
+			c.Sig("root|pseudo-file|statsize="+fmt.Sprint(fi.Size()), true)
+		}
 		st := store.New()
 		if _, _, err := builder.BuildUnixFSRecursive(filepath.Join(dir, "fifo"), st.LinkSystem(false)); err == nil {
 			c.Violation("C18|special-accepted|fifo", "a fifo as import root was accepted")
